@@ -1,6 +1,8 @@
 package main
 
 import (
+	"regexp"
+	"strconv"
 	"strings"
 	"fmt"
 	"go/token"
@@ -689,7 +691,14 @@ func (f *FuncVC) convert(st *State, v *Val, from, to types.Type) *Val {
 			// narrowing conversions in an encoder must not lose information
 			if tlo, thi, ok := intRangeOf(to); ok {
 				if lo == nil || hi == nil || lo.Cmp(tlo) < 0 || hi.Cmp(thi) > 0 {
-					if !f.isByteExtract(to) {
+					switch f.byteExtractKind(from) {
+					case "low":
+						// low byte of a multi-byte big-endian write: the top byte carries the obligation
+					case "top":
+						// top byte of a k-byte write: the value must fit into k bytes
+						// (two's complement for signed sources)
+						f.oblige(st, "lossless", f.srcAt(f.curPos), and(cmp("<=", "(- 128)", v.T), cmp("<=", v.T, "255")))
+					default:
 						f.oblige(st, "lossless", f.srcAt(f.curPos), and(cmp("<=", numBig(tlo), v.T), cmp("<=", v.T, numBig(thi))))
 					}
 				}
@@ -751,11 +760,59 @@ func (f *FuncVC) convert(st *State, v *Val, from, to types.Type) *Val {
 	return f.freshTyped(st, to, "conv")
 }
 
-// isByteExtract reports whether the current conversion has the form
-// byte(x >> k) / byte(x): a deliberate extraction of one byte of a wider
-// value, which is the idiom for big-endian output and not a truncation.
-func (f *FuncVC) isByteExtract(to types.Type) bool {
-	return false
+// byteExtractKind classifies the narrowing conversion at the current position
+// by its source text: byte(T>>k) / byte(T) groups are the idiom for writing T
+// as big-endian bytes.  "low": a lower byte of such a group; "top": the byte
+// with the largest shift (it decides whether T fits); "": an ordinary narrowing.
+var shiftArg = regexp.MustCompile(`^(.*?)\s*>>\s*(\d+)$`)
+
+func (f *FuncVC) byteExtractKind(from types.Type) string {
+	src := f.srcAt(f.curPos) // e.g. byte(x >> 8)
+	k := strings.Index(src, "(")
+	if k < 0 || !strings.HasSuffix(src, ")") {
+		return ""
+	}
+	arg := strings.TrimSpace(src[k+1 : len(src)-1])
+	fnSrc := f.eng.funcSource(f.fn)
+	shiftsOf := func(t string) []int {
+		var out []int
+		re := regexp.MustCompile(`\(\s*` + regexp.QuoteMeta(t) + `\s*>>\s*(\d+)\s*\)`)
+		for _, m := range re.FindAllStringSubmatch(fnSrc, -1) {
+			n, _ := strconv.Atoi(m[1])
+			out = append(out, n)
+		}
+		return out
+	}
+	if m := shiftArg.FindStringSubmatch(arg); m != nil {
+		t := strings.TrimSpace(m[1])
+		n, _ := strconv.Atoi(m[2])
+		mx := n
+		for _, s := range shiftsOf(t) {
+			if s > mx {
+				mx = s
+			}
+		}
+		if n < mx {
+			return "low"
+		}
+		// top byte: only an obligation if the source type is wider than the bytes written
+		if b := basicOf(from); b != nil {
+			if lo, hi, ok := intRange(b); ok {
+				bits := hi.BitLen()
+				if lo.Sign() < 0 {
+					bits++
+				}
+				if bits <= n+8 {
+					return "low"
+				}
+			}
+		}
+		return "top"
+	}
+	if len(shiftsOf(arg)) > 0 {
+		return "low"
+	}
+	return ""
 }
 
 func (f *FuncVC) makeInterface(st *State, v *Val, from, to types.Type) *Val {
